@@ -1,6 +1,6 @@
 (** C09 - Explicit presence: nil/invalid stays absent, present zero values stay
     present.  PARTIAL as C01: the round-trip statements hold for the [rt_ok]
-    fragment; pointer-valued map entries are decided by the correspondence.
+    fragment, which includes pointer- and null-valued map entries (C09_map_entry_presence).
     Known findings: presence is lost at the top level (D27) and for null types
     inside slices (D24). *)
 From Plenc Require Import Base Varint Wire JsonAny Codec SizeProofs Registry CorrCore Descriptor DescProofs RoundTrip RoundTripZero.
@@ -15,14 +15,25 @@ Proof. intros. repeat split; reflexivity. Qed.
 Print Assumptions C09_presence_decides_omission.
 
 (** present reads back present, with its value *)
-Theorem C09_present_roundtrip_partial : forall c x, rt_ok c -> wfv c x -> fits c x -> canon c x ->
+Theorem C09_present_roundtrip_partial : forall c x, rt_ok c -> top_ok c -> wfv c x -> fits c x -> canon c x ->
   dec (CPtr c) (enc (CPtr c) (VPtr (Some x)) []) (wire c) (VPtr None) = Ok (VPtr (Some x), len (enc c x [])).
 Proof.
-  intros c x Hok Hw Hf Hc.
-  pose proof (unmarshal_marshal (CPtr c) (VPtr (Some x)) (VPtr None) Hok Hw Hf eq_refl) as H.
+  intros c x Hok Ht Hw Hf Hc.
+  pose proof (unmarshal_marshal (CPtr c) (VPtr (Some x)) (VPtr None) (conj Hok Ht) I Hw Hf eq_refl) as H.
   cbn [omit wire merge enc] in H. rewrite (merge_zero_id c x Hok Hw Hc) in H. exact H.
 Qed.
 Print Assumptions C09_present_roundtrip_partial.
+
+(** pointer-valued map entries: whatever the key, a nil value is written as an
+    entry without a value field and the entry reads back with a nil value; a
+    present value reads back present - also when it encodes to nothing
+    ([entry_merge] is what decoding one entry does to the map, RoundTrip.v) *)
+Theorem C09_map_entry_presence : forall kc c k x m,
+  let k' := if omit kc k then zero kc else merge kc (zero kc) k in
+  entry_merge kc (CPtr c) m (k, VPtr None) = map_set k' (VPtr None) m /\
+  exists y, entry_merge kc (CPtr c) m (k, VPtr (Some x)) = map_set k' (VPtr (Some y)) m.
+Proof. intros. unfold entry_merge. cbn [fst snd omit zero merge]. split; [reflexivity|eexists; reflexivity]. Qed.
+Print Assumptions C09_map_entry_presence.
 
 (** absent reads back absent: an omitted field leaves the (fresh, nil) slot alone *)
 Theorem C09_absent_stays_absent : forall vs cur f,
